@@ -41,7 +41,11 @@ def gen_prog(rng, o, ty, nb, kind):
         if r < 0.28:
             prog.append(['sleep', rng.choice(SLEEPS)])
         elif r < 0.62 and lower:
-            prog.append(['dispatch', rng.randrange(nb), rng.choice(lower), nslots])
+            if o['p_parent'] and rng.random() < 2 * o['p_parent']:
+                # the handler writes the parent link itself: its own event, or (rarely) the first event of the scenario
+                prog.append(['dispatch_with_parent', rng.randrange(nb), rng.choice(lower), nslots, rng.choice(['self', 'self', 0])])
+            else:
+                prog.append(['dispatch', rng.randrange(nb), rng.choice(lower), nslots])
             nslots += 1
         elif r < 0.88 and nslots:
             prog.append(['await', rng.randrange(nslots)])
